@@ -30,7 +30,7 @@ EXPLANATION = (
 ASSUMPTIONS = ["user-defined channels follow the built-in naming convention", "'integrate simulates the displayed model' as a whole is not decided"]
 
 
-def _refresh(repo, col, R="R-C19-refresh"):
+def _refresh(repo, col, R="R-C19-rebuild"):
     """A view keeps its own cut of the base's registries (`view.recordings`, `view.externals`, ...).  A deletion made THROUGH a view edits
     the base and must then rebuild the view (`self._update_view()`), or the view goes on displaying -- and handing to a later
     `delete_*` -- rows that no longer exist.  Structural: every statement that edits a registry of `self.base` in the delete_*
@@ -83,7 +83,7 @@ def _refresh(repo, col, R="R-C19-refresh"):
 
 
 def check(repo, col, tier):
-    col.rule("R-C19-refresh", "a deletion made through a view rebuilds that view", 4)
+    col.rule("R-C19-rebuild", "a deletion made through a view rebuilds that view", 4)
     _refresh(repo, col)
     col.rule("R-C19-undo", "delete_channel releases what insert acquired; shared resources only when unused", 6)
     col.rule("R-C19-relabel", "row-label registries guarded or rewritten on renumbering", 4)
